@@ -123,9 +123,14 @@ func check(c Case) (pbt.Info, error) {
 	return info, nil
 }
 
-func gen(kind string) func(t *rapid.T) Case {
+func gen(kind string) func(t *rapid.T) Case { return genWith(kind, false) }
+
+func genWith(kind string, float bool) func(t *rapid.T) Case {
 	return func(t *rapid.T) Case {
 		c := Case{Cfg: refl.GenCfg(t, kind)}
+		if float {
+			c.Cfg = refl.GenCfgFloat(t, kind)
+		}
 		// every exported method, the structure-building ones listed three more times so
 		// that rarely reached shapes (deep trees, wrapped rings, long lists) are common
 		var methods []string
@@ -162,6 +167,10 @@ func TestGenerated(t *testing.T) {
 	pbt.ReplayOnly(t, pbt.Target[Case]{Name: "fuzz", Check: check})
 	for _, kind := range refl.Kinds {
 		pbt.Run(t, pbt.Target[Case]{Name: kind, Checks: 2000, Gen: gen(kind), Check: check, Before: before(kind)})
+	}
+	// float64 elements (NaN, zeros, infinities) with the default constructors
+	for _, kind := range refl.Kinds {
+		pbt.Run(t, pbt.Target[Case]{Name: kind + "/float64", Checks: 500, Gen: genWith(kind, true), Check: check, Before: before(kind + "/float64")})
 	}
 }
 
